@@ -258,9 +258,9 @@ TraceChoice(s, e) ==
       nums |-> [j \in 1..m |-> num(j)], abss |-> [j \in 1..m |-> abs(j)], fresh |-> [j \in 1..m |-> abs(j)],
       id |-> e.ch.id]
 
+\* state class of a signature: <<new | reopened, solo | two>> (two = the other document of the process is in use)
 DocClass(s, d) ==
-  LET two == NDocs(s) = 2 /\ s.touched[Other(d)] IN
-  IF s.opened[d] THEN (IF two THEN "reopened/two" ELSE "reopened") ELSE (IF two THEN "new/two" ELSE "new")
+  <<IF s.opened[d] THEN "reopened" ELSE "new", IF NDocs(s) = 2 /\ s.touched[Other(d)] THEN "two" ELSE "solo">>
 
 \* what the step is NOT judged on:
 \*  Reopen      - which body elements the reader keeps (content controls, bookmarks) is property C03's subject
@@ -300,7 +300,7 @@ Judge(s, e) ==
       d   == op.d
       ch  == TraceChoice(s, e)
       x   == X(s, op, ch)
-      pre == <<"C15", op.op, DocClass(s, d)>>
+      pre == <<"C15", op.op>> \o DocClass(s, d)
       pv  == s.docs[d]
       o   == e.docs[d]
   IN  (IF e.ret = "panic" THEN {pre \o <<"panic">>}
@@ -312,7 +312,7 @@ Judge(s, e) ==
                  THEN {pre \o <<"id-not-fresh">>} ELSE {})
            \cup (IF op.op \in Regen /\ op = s.last /\ s.lastok /\ IsOk(e.ret) /\ o # pv
                  THEN {pre \o <<"not-idempotent">>} ELSE {}))
-   \cup UNION {{<<"C15", op.op, IF dd = d THEN DocClass(s, d) ELSE "other-doc">> \o SigOf(w, s.docs[dd]) :
+   \cup UNION {{(IF dd = d THEN pre ELSE <<"C15", op.op, IF s.opened[dd] THEN "reopened" ELSE "new", "other-doc">>) \o SigOf(w, s.docs[dd]) :
                    w \in IF e.docs[dd].sv # "ok" THEN {} ELSE InvDoc(e.docs[dd], x.reqs[dd]) \ InvDoc(s.docs[dd], s.reqs[dd])} :
                  dd \in 1..NDocs(s)}
 
